@@ -112,6 +112,7 @@ func init() {
 		err := vc.freshError(st, "rerr")
 		vc.assume(and(app("bvsle", bvLit(64, 0), nn), app("bvsle", nn, p.C[2]),
 			implies(not(isErr(err)), or(app("bvsge", nn, bvLit(64, 1)), eq(p.C[2], bvLit(64, 0))))))
+		vc.noteRead(c.n.Reach, nn)
 		c.streamRead(s, p, nn, constLen(p.C[2]))
 		c.setFail(s, isErr(err))
 		return tupleSV(c.method.Type().(*types.Signature).Results(), &SV{T: intType, C: []string{nn}}, err), true
